@@ -114,6 +114,14 @@ def run(R, tier):
     R.floor("R11.3", "fallible write call sites", n_sites, 45)
     # response unit keeps the first failure (shared with C05/R05.6)
     _latch(R, P, u)
+    _surface(R, P, u)
+    # R11.7 ... and every writer hands a refused write back as it is (emit.check_all_writers, shared with C05/R05.9)
+    from . import emit as E
+    E.check_all_writers(R, "R11.7", P)
+    # R11.8 the writers' own stack buffers hold every value of their type: a short one makes lexical-core panic (shared
+    # with C09/R09.1)
+    from . import c09
+    c09.int_writers(R, "R11.8")
 
     # ---- R11.5 no heap: direct census + build-graph witness --------------------------------------------------------
     n_alloc_calls = 0
@@ -166,7 +174,7 @@ def _latch(R, P, u):
             if meth == "header" and flags[1]:
                 continue
             vals = {"fmt": RefV(Cell(TOP, "fmt"), (), True), "result": fdai.mk_err(SymV("first-error", "first-error")), "has_header": K(flags[0]), "has_data": K(flags[1])}
-            ucell = Cell(AggV(ru_adt, {i: vals[n] for i, n in enumerate(fields)}), "unit")
+            ucell = Cell(AggV(ru_adt, {i: vals.get(n, TOP) for i, n in enumerate(fields)}), "unit")
             res = eng.run(b, [RefV(ucell, (), True), SymV("payload", "payload")])
             for r in res:
                 writes = [e.name for e in r.trace if e.kind == "call" and ("Formatter::" in e.name or "format_response_data" in e.name)]
@@ -175,3 +183,73 @@ def _latch(R, P, u):
                 fres = final.fields.get(fields.index("result")) if isinstance(final, AggV) else None
                 keep = isinstance(fres, EnumV) and fres.name == "Err" and isinstance(fres.fields.get(0), SymV) and fres.fields[0].id == "first-error"
                 R.check(not writes and keep, "R11.3", "ResponseUnit::%s[after-error,%s]" % (meth, flags), "after a failed write nothing more is written and the failure is kept", "after a failed write (e.g. -225) ResponseUnit::%s still writes %s / replaces the stored error by %r: a later, shorter datum would turn the failure into a truncated success" % (meth, writes, fres), where=b.span)
+
+
+def _surface(R, P, u):
+    """R11.6 a write the buffer refuses surfaces as exactly that failure: [header] data* finish on a unit whose k-th write
+    is refused ends in Err(that failure) - whichever write it was (the first one included) and whatever else the unit
+    would have written. (The fixed-capacity formatter's own failure is -225: R11.1.)"""
+    import itertools
+    ru_adt = "scpi::parser::response::ResponseUnit"
+    fields = [f["name"] for f in u.adts[ru_adt]["variants"][0]["fields"]]
+    WR = ("Formatter::push_str", "Formatter::push_byte", "Formatter::push_ascii", "Formatter::data_separator", "Formatter::header_separator", "ResponseData::format_response_data")
+
+    def mk_engine(fail_at):
+        ctr = {"n": 0}
+
+        def m_write(eng_, st, fr, t, name, rname, args):
+            k = st.extra.get("writes", 0)
+            st.extra["writes"] = k + 1
+            if k == st.extra.get("fail_at"):
+                return fdai.mk_err(SymV("refused", "the refused write"))
+            return fdai.mk_ok(fdai.UNIT)
+        ms = {}
+        for w in WR:
+            ms["scpi::parser::response::" + w] = m_write
+        return fdai.Engine(P, u, inline=lambda n, r: r.startswith("scpi::parser::response::ResponseUnit::") or r.startswith("scpi::error::"), models=ms, max_paths=32)
+    eng = mk_engine(None)
+    bodies = {m: u.body("scpi::parser::response::ResponseUnit::" + m) for m in ("header", "data", "finish")}
+    bad = []
+    n_seq = 0
+    for seq in (("data",), ("data", "data"), ("header", "data"), ("header", "data", "data"), ("data", "data", "data")):
+        # how many writes does the sequence make when nothing fails?
+        total = None
+        for fail_at in [None] + list(range(0, 8)):
+            if fail_at is not None and total is not None and fail_at >= total:
+                break
+            vals = {"fmt": RefV(Cell(TOP, "fmt"), (), True), "result": fdai.mk_ok(fdai.UNIT), "has_header": K(False), "has_data": K(False)}
+            ucell = Cell(AggV(ru_adt, {i: vals.get(n, TOP) for i, n in enumerate(fields)}), "unit")
+            st_extra = {"writes": 0, "fail_at": fail_at}
+            ok_run = True
+            res = None
+            for meth in seq + ("finish",):
+                st = fdai.State()
+                st.extra.update(st_extra)
+                st.extra["unit"] = ucell
+                args = [RefV(ucell, (), True)] + ([SymV("payload", "payload")] if meth != "finish" else [])
+                try:
+                    rs = eng.run(bodies[meth], args, st)
+                except (fdai.TooManyPaths, RecursionError):
+                    rs = []
+                if len(rs) != 1 or rs[0].outcome != "return":
+                    ok_run = False
+                    bad.append("%s (write %s refused): %s is undecided (%d paths%s)" % ("+".join(seq), fail_at, meth, len(rs), ", " + rs[0].outcome if len(rs) == 1 else ""))
+                    break
+                st_extra = {"writes": rs[0].extra.get("writes", 0), "fail_at": fail_at}
+                ucell = rs[0].extra.get("unit")
+                res = rs[0]
+            if not ok_run:
+                break
+            n_seq += 1
+            oc = M.outcome(res)
+            if fail_at is None:
+                total = st_extra["writes"]
+                if oc != "Ok":
+                    bad.append("%s with no refusal ends in %s" % ("+".join(seq), oc))
+            else:
+                v = res.retval
+                e0 = v.fields.get(0) if isinstance(v, EnumV) and v.name == "Err" else None
+                if not (isinstance(e0, SymV) and e0.id == "refused"):
+                    bad.append("%s with write #%d refused ends in %s instead of that failure" % ("+".join(seq), fail_at, oc))
+    R.check(not bad and n_seq >= 12, "R11.6", "unit:refused-write-surfaces", "whichever write of a unit the buffer refuses, finish() returns exactly that failure (%d sequences)" % n_seq, "; ".join(bad[:3]))
+
